@@ -21,7 +21,7 @@ MANIFEST = {
     'note': 'Reference semantics are the builtins\' (queue: maxsize<=0 is unbounded as in queue.Queue); argument domains tiny on purpose; cluster part submits through healthy nodes and waits for each callback.',
 }
 LEVEL = 'exploration'
-RULE = ('case = (battery kind, maxsize in {0,1,2,3,8}, op list <=25 (<=40 for queues) with args from ints 0..5/short strings/small tuples, mode direct|cluster). '
+RULE = ('case = (battery kind, maxsize in {0,1,2,3,8}, op list <=25 (<=40 for queues) with args from ints 0..5/short strings/small tuples, list elements also 0.0/1.0/2.0/True/False (equal to ints, not identical: list contents and results are compared by type and value), mode direct|cluster). '
         'non-trivial = the sequence hit >=1 miss/empty/bound situation (documented error, default returned, put refused) AND used >=1 default argument; distinct = distinct case digests')
 ASSUMPTIONS = ['documented errors = ValueError/IndexError/KeyError as in the docstrings', 'queue "full" follows queue.Queue: never full when maxsize<=0']
 
